@@ -126,14 +126,26 @@ def run_variant(job):
             tempo = oqupy.Tempo(system, bath, params, rho0, start, unique=unique)
             dyn = tempo.compute(end_time, progress_type="silent")
         else:
-            pt = oqupy.PtTempo(bath, start, end_time, params, unique=unique)
+            rt = var.get("pt_roundtrip")
+            pt = oqupy.PtTempo(bath, start, end_time, params, unique=unique, process_tensor_file=True if rt else None)
             ptens = pt.get_process_tensor(progress_type="silent")
+            if rt:
+                # the process tensor is written to a file by PT-TEMPO, closed, and imported again
+                fname = ptens.filename
+                ptens.close()
+                ptens = oqupy.import_process_tensor(fname, rt)
+                info["cleanup"] = fname
             nsub = var.get("num_steps")
             dyn = oqupy.compute_dynamics(system, initial_state=rho0, process_tensor=ptens,
                                          start_time=start, num_steps=nsub,
                                          subdiv_limit=var.get("subdiv", None),
                                          progress_type="silent")
             info["pt_len"] = len(ptens)
+            if rt:
+                import os as _os
+                if rt == "file":
+                    ptens.close()
+                _os.remove(fname)
     except Exception as ex:  # pylint: disable=broad-except
         if "probe lattice exceeded" in str(ex):
             raise          # a limit of the probe, not a verdict about the code: machinery error
